@@ -88,16 +88,42 @@ def make(kind, ctor):
 def doc_tables():
     """Index tables parsed from the live docstrings; a documentation change makes the run inconclusive."""
     out = {"problems": []}
-    row = re.compile(r"\|\s*(\d+)\s*\|\s*(.*?)\s*\|")
-    tail = re.compile(r"^\s*\|\s*([A-Za-z][^|]*?)\s*\|\s*$", re.M)
+    def parse_table(doc):
+        """(head, tail): head = {index: quantity key} from rows 'index | description' in any table style (grid, simple,
+        markdown, plain lists); tail = per-level quantity keys in documented order (rows '5 + 4n | description' sorted
+        by their offset, or index-less rows that describe a per-level quantity, in order of appearance)."""
+        head, tail_idx, tail_seq = {}, [], []
+        for line in doc.splitlines():
+            t = line.strip().strip("|+-=").strip()
+            if not t:
+                continue
+            m = re.match(r"^(\d+)\s*\+\s*4\s*\*?\s*n\b[\s|:]*(.+?)[\s|]*$", t)
+            if m:
+                k = classify(m.group(2))
+                if k and k.endswith("_level"):
+                    tail_idx.append((int(m.group(1)), k))
+                continue
+            m = re.match(r"^(\d+)\s*[|:\s]\s*(.*\S)[\s|]*$", t)
+            if m:
+                k = classify(m.group(2))
+                if k and not k.endswith("_level") and int(m.group(1)) not in head:
+                    head[int(m.group(1))] = k
+                continue
+            k = classify(t)
+            if k and k.endswith("_level") and len(t) < 60 and k not in tail_seq:
+                tail_seq.append(k)
+        tail = [k for _, k in sorted(tail_idx)] if tail_idx else tail_seq
+        return head, tail
+
     for cls, meth, l2 in [(bourse.core.StepEnv, "level_1_data_array", False), (bourse.core.StepEnv, "level_2_data_array", True),
                           (bourse.core.StepEnvNumpy, "level_1_data", False), (bourse.core.StepEnvNumpy, "level_2_data", True)]:
         doc = getattr(cls, meth).__doc__ or ""
-        table = {int(k): v for k, v in row.findall(doc)}
+        table, tailk = parse_table(doc)
         n_head = 5 if l2 else 9
-        head = [classify(table.get(i, "")) for i in range(n_head)]
-        tailk = [classify(t) for t in tail.findall(doc)] if l2 else []
-        ok = sorted(table.keys()) == list(range(n_head)) and None not in head and len(set(head)) == n_head and set(head) <= set(CANON_HEAD)
+        head = [table.get(i) for i in range(n_head)]
+        if not l2:
+            tailk = []
+        ok = None not in head and len(set(head)) == n_head and set(head) <= set(CANON_HEAD)
         if l2:
             ok = ok and sorted(tailk) == sorted(CANON_TAIL)
         if not ok:
@@ -106,12 +132,12 @@ def doc_tables():
             LAYOUTS[(cls.__name__, meth)] = {"head": head, "tail": tailk}
             if head != CANON_HEAD[:n_head] or (l2 and tailk != CANON_TAIL):
                 out.setdefault("layout_differs_from_pinned", []).append("%s.%s" % (cls.__name__, meth))
-        out["%s.%s" % (cls.__name__, meth)] = table
-    keyrow = re.compile(r"\|\s*``([a-z_<>N]+)``\s*\|")
+        out["%s.%s" % (cls.__name__, meth)] = {"head": head, "tail": tailk}
+    keyrow = re.compile(r"`+((?:bid|ask)_(?:price|vol)(?:_<N>)?|trade_vol|n_(?:bid|ask)_<N>)`+")
     for cls in (bourse.core.StepEnv, bourse.core.StepEnvNumpy):
         doc = cls.get_market_data.__doc__ or ""
-        keys = keyrow.findall(doc)
-        want = ["bid_price", "ask_price", "bid_vol", "ask_vol", "trade_vol", "bid_vol_<N>", "ask_vol_<N>", "n_bid_<N>", "n_ask_<N>"]
+        keys = sorted(set(keyrow.findall(doc)))
+        want = sorted(["bid_price", "ask_price", "bid_vol", "ask_vol", "trade_vol", "bid_vol_<N>", "ask_vol_<N>", "n_bid_<N>", "n_ask_<N>"])
         if keys != want:
             out["problems"].append("%s.get_market_data: documented keys %r differ from %r" % (cls.__name__, keys, want))
     for fn, want in [(bourse.data_processing.orders_to_dataframe, CANON_ORDER_COLS), (bourse.data_processing.trades_to_dataframe, CANON_TRADE_COLS)]:
